@@ -33,6 +33,7 @@ type step struct {
 	Mode    string `json:"mode"`              // q | wait | waitto
 	Timeout string `json:"timeout,omitempty"` // ?timeout= for waitto
 	SleepMs int    `json:"sleep_ms"`
+	Slow    bool   `json:"slow,omitempty"` // the (single) statement carries about 2 s of SQLite work
 }
 
 type caseSpec struct {
@@ -46,6 +47,8 @@ type caseSpec struct {
 	Scripts   [][]step `json:"-"`
 	MaxFaults int      `json:"max_faults"`
 	Plan      []fault  `json:"-"`
+	// per node round of the consumer-stall phase: 0 slow statement, 1 node cut off
+	StallModes []int `json:"stall_modes"`
 }
 
 // fault is one pre-drawn nemesis step; what it does to whom is resolved
@@ -96,6 +99,12 @@ func genCase(c *vf.Ctx, caseNo int) caseSpec {
 		}
 		cs.Scripts = append(cs.Scripts, sc)
 	}
+	for i := 0; i < 3; i++ {
+		cs.StallModes = append(cs.StallModes, r.IntN(2))
+	}
+	if cs.Nodes == 3 && cs.StallModes[0] == cs.StallModes[1] && cs.StallModes[1] == cs.StallModes[2] {
+		cs.StallModes[1+r.IntN(2)] ^= 1 // both ways of stalling in every 3-node history
+	}
 	return cs
 }
 
@@ -126,6 +135,8 @@ type histOut struct {
 	Expvar   map[string]int64 `json:"expvar"`
 	SetupErr string           `json:"setup_err,omitempty"`
 	DrainErr string           `json:"drain_err,omitempty"`
+	Stall    []stallRound     `json:"stall,omitempty"`
+	Stuck    bool             `json:"stuck,omitempty"`
 }
 
 // ---- driver ----
@@ -354,7 +365,7 @@ func judge(c *vf.Ctx, i int, h *histOut) {
 	waitsOK := 0
 	for j := range h.Reqs {
 		r := &h.Reqs[j]
-		if r.Mode == "q" || r.Mode == "burst" || r.Status != 200 {
+		if r.Mode == "q" || r.Mode == "burst" || r.Mode == "stall" || r.Status != 200 {
 			if r.Status == 408 {
 				c.Count("wait_timeouts_408", 1)
 			}
@@ -586,11 +597,15 @@ func runHistory(c *vf.Ctx, caseNo int, dir string) (h histOut, cl *hcluster.Clus
 	wg.Wait()
 	cl.Net.HealAll()
 	note()
+	// Consumer-stall rounds under light traffic (stall.go).
+	logf("clients done, consumer-stall rounds")
+	h.Stuck = !stallPhase(cl, cs, nodes, &h, func(r reqRec) { recs = append(recs, r) })
 	// Burst phase: many producers hit one node's queue back to back, so that
 	// concurrent acceptances contend inside queue.Write.
-	logf("clients done, burst")
+	logf("stall rounds done, burst")
+	cl.Net.HealAll()
 	cl.WaitLeader(60 * time.Second)
-	{
+	if !h.Stuck {
 		target := nodes[cs.Case%len(nodes)]
 		var bw sync.WaitGroup
 		start := make(chan struct{})
@@ -619,7 +634,7 @@ func runHistory(c *vf.Ctx, caseNo int, dir string) (h histOut, cl *hcluster.Clus
 		h.DrainErr = "no leader after heal"
 	}
 	for ni, node := range nodes {
-		if h.DrainErr != "" {
+		if h.DrainErr != "" || h.Stuck {
 			break
 		}
 		var rec reqRec
@@ -694,6 +709,10 @@ func doReq(cl *hcluster.Cluster, node *hcluster.Node, ci, n int, st step) reqRec
 	}
 	var body []any
 	for i := 0; i < st.K; i++ {
+		if st.Slow {
+			body = append(body, fmt.Sprintf("INSERT INTO q(c,n,i) SELECT %d, %d, %d+0*count(*) FROM (WITH RECURSIVE r(x) AS (SELECT 0 UNION ALL SELECT x+1 FROM r WHERE x<%d) SELECT x FROM r)", ci, n, i, slowStmtRows))
+			continue
+		}
 		body = append(body, fmt.Sprintf("INSERT INTO q(c,n,i) VALUES(%d, %d, %d)", ci, n, i))
 	}
 	path := "/db/execute?queue"
@@ -719,7 +738,7 @@ func doReq(cl *hcluster.Cluster, node *hcluster.Node, ci, n int, st step) reqRec
 		return rec
 	}
 	rec.Seq = a.SequenceNumber
-	if st.Mode == "q" {
+	if st.Mode == "q" || st.Mode == "stall" {
 		return rec
 	}
 	// The response is in hand: any strong read that succeeds from now on must
